@@ -8,9 +8,17 @@
    CPaths: AddBackendPath run on a real hatypes.Backend: (link, id) in id order.
    CAuth:  AcquireAuthBackendName / RemoveAuthBackend* run on a real hatypes.Frontend:
            after each call the port returned (None = error / nothing returned) and the
-           bind list (backend, port) in order. *)
+           bind list (backend, port) in order.
+   CTmpl:  one history through the real controller: after every reconciliation the model
+           state the real instance holds (read from its Config() objects: hosts, backends,
+           userlists, tcp services, auth proxy, global flags — Model/TmplRefs.v `tstate`)
+           next to the sections and the references to sections PARSED from the files it
+           wrote. `emitted_sections` / `references` of the observed state must be the parsed
+           sections (as a multiset) / references (as a set), and the state must satisfy the
+           invariants `st_inv` of theorem C07_template_refs_closed whenever the Go reference
+           analysis found the written files sound (flag ok). *)
 From Coq Require Export String Ascii List NArith ZArith Bool.
-From HI Require Export Model.CfgRefs.
+From HI Require Export Model.CfgRefs Model.TmplRefs.
 Export ListNotations.
 
 Fixpoint of_codes (l : list N) : string :=
@@ -29,14 +37,30 @@ Definition mk_cfg ss ul mp cl fl ab ai asv : cfg :=
   {| c_sections := ss; c_userlists := ul; c_maps := mp; c_crtlists := cl; c_files := fl;
      c_authbinds := ab; c_authids := ai; c_authservers := asv |}.
 
+Definition mk_tpath p b a : tpath := {| tp_path := p; tp_back := b; tp_auth := a |}.
+Definition mk_thost n ps hp tls paths : thost :=
+  {| th_name := n; th_pass := ps; th_httppass := hp; th_tls := tls; th_paths := paths |}.
+Definition mk_tback i t ul au r : tback :=
+  {| tb_id := i; tb_tcp := t; tb_userlists := ul; tb_auth := au; tb_resolver := r |}.
+Definition mk_ttcp p hs d : ttcp := {| tt_port := p; tt_hosts := hs; tt_default := d |}.
+Definition mk_tbind n b : tbind := {| ab_name := n; ab_backend := b |}.
+Definition mk_tstate hosts dh hp backs db uls res tcpb tcps an binds fm hn acme modsec prom : tstate :=
+  {| ts_hosts := hosts; ts_defhost := dh; ts_haspass := hp; ts_backs := backs; ts_default := db;
+     ts_userlists := uls; ts_resolvers := res; ts_tcpbacks := tcpb; ts_tcp := tcps;
+     ts_authname := an; ts_binds := binds; ts_fmaps := fm; ts_httpsname := hn;
+     ts_acme := acme; ts_modsec := modsec; ts_prom := prom |}.
+
+Definition tobs := (tstate * list sid * list (string * sid) * bool)%type.
+
 Inductive c07case :=
 | CCfg (id : N) (states : list (cfg * bool))
 | CNames (id : N) (m : naming) (ops : list ep_op) (obs : list string)
 | CPaths (id : N) (ops : list string) (obs : list (string * string))
-| CAuth (id : N) (ops : list auth_op) (obs : list (option Z * list (string * Z))).
+| CAuth (id : N) (ops : list auth_op) (obs : list (option Z * list (string * Z)))
+| CTmpl (id : N) (states : list tobs).
 
 Definition case_id (c : c07case) : N :=
-  match c with CCfg i _ | CNames i _ _ _ | CPaths i _ _ | CAuth i _ _ => i end.
+  match c with CCfg i _ | CNames i _ _ _ | CPaths i _ _ | CAuth i _ _ | CTmpl i _ => i end.
 
 Fixpoint slist_eqb (a b : list string) : bool :=
   match a, b with
@@ -69,12 +93,25 @@ Fixpoint trace_eqb (a b : list (option Z * list (string * Z))) : bool :=
   | _, _ => false
   end.
 
+Definition sid_count (x : sid) (l : list sid) : nat := length (filter (sid_eqb x) l).
+Definition sids_same (a b : list sid) : bool :=
+  forallb (fun x => Nat.eqb (sid_count x a) (sid_count x b)) (a ++ b).
+Definition ref_eqb (a b : string * sid) : bool := String.eqb (fst a) (fst b) && sid_eqb (snd a) (snd b).
+Definition ref_mem (x : string * sid) (l : list (string * sid)) : bool := existsb (ref_eqb x) l.
+Definition refs_same (a b : list (string * sid)) : bool :=
+  forallb (fun x => ref_mem x b) a && forallb (fun x => ref_mem x a) b.
+
+Definition tobs_ok (o : tobs) : bool :=
+  let '(st, secs, refs, ok) := o in
+  sids_same (emitted_sections st) secs && refs_same (references st) refs && (negb ok || st_inv st).
+
 Definition case_ok (c : c07case) : bool :=
   match c with
   | CCfg _ states => forallb (fun st : cfg * bool => Bool.eqb (wellformed (fst st)) (snd st)) states
   | CNames _ m ops obs => slist_eqb (run_names m ops) obs
   | CPaths _ ops obs => plist_eqb (run_paths String.eqb (fun l => l) ops) obs
   | CAuth _ ops obs => trace_eqb (trace_auth [] ops) obs
+  | CTmpl _ states => forallb tobs_ok states
   end.
 
 Definition mismatches (cs : list c07case) : list N :=
